@@ -71,7 +71,7 @@ def replay(case):
     return _finish(ex, dict(case), fp)
 
 LEVEL_TEXT = ("seeded exploration of (history x schedule x flavour) with the real engine under a deterministic step scheduler; "
-              "a violation is a concrete replayable plan. Sampling, not proof: quick ~6k runs, thorough ~400k runs. "
+              "a violation is a concrete replayable plan. Sampling, not proof: quick ~6k runs, thorough ~72k runs. "
               "Interleaved rename / folder-delete races are a recorded known finding (identified on the 1-minimal history); everything else is reported.")
 LEVEL_NOTE = ("trusted: MockProvider as the cloud, the harness's emulation of Runnable.run around do(), tree reads through the Provider API; "
               "bounded histories (<=7 ops); the step driver's atomic units are the engine's own lock scopes (C15 checks that discipline)")
